@@ -100,7 +100,12 @@ func (s *Store) Append(ctx context.Context, event *eventbus.Event) (eventbus.Off
 		Data: event.Data,
 	}
 	if !event.Timestamp.IsZero() {
-		writeEvent.Timestamp = event.Timestamp.Format(time.RFC3339Nano)
+		ts := event.Timestamp
+		if _, offset := ts.Zone(); offset%60 != 0 {
+			// RFC 3339 drops the seconds of a zone offset, which would shift the instant
+			ts = ts.UTC()
+		}
+		writeEvent.Timestamp = ts.Format(time.RFC3339Nano)
 	}
 
 	if err := writer.SendJSON(writeEvent, nil); err != nil {
